@@ -4,10 +4,13 @@
 //! vh run <spec>...                        run instances, one JSON report per line on stdout
 //! vh replay <file.json>                   replay a recorded violation
 //! vh selftest                             engine self tests on toy programs
+mod api;
 mod common;
 mod explore;
+mod fmt;
 mod json;
 mod plan;
+mod reffmt;
 mod rt;
 mod sc_holder;
 mod sc_queue;
@@ -75,6 +78,8 @@ fn run_spec(spec: &Spec) -> common::Report {
         "holder" => sc_holder::run(spec),
         "holderseq" => sc_holder::run_seq(spec),
         "queue" => sc_queue::run(spec),
+        "fmt01" => fmt::run_c01(spec),
+        "fmt04" => fmt::run_c04(spec),
         other => {
             let mut r = common::Report::new(&spec.raw);
             r.errors.push(format!("unknown engine {:?}", other));
